@@ -146,8 +146,12 @@ Definition rows_ss (oc : ocp) (pt : point) : list (row F) :=
   let N := m_N me in
   let cg := grid_of oc pt in
   let L := lists_of oc pt true in
+  let Tl := T_local (m_grid me) N (p_T pt) (p_Tloc pt) in
+  let t0l := p_t0 pt :: p_t0loc pt in
   bounds_finalize (m_grid me) cg (p_t0 pt) (p_T pt)
-  ++ flat_map (path_rows_k oc L) (seq 0 N)
+  ++ flat_map (fun k =>
+       bounds_T (m_grid me) N (horizon_is_var (o_T oc)) (p_T pt) Tl t0l k
+       ++ path_rows_k oc L k) (seq 0 N)
   ++ last_rows L (o_c_control oc ++ o_c_integrator oc)
   ++ map (prow L) (o_c_point oc)
   ++ freeT_rows oc pt.
